@@ -2125,6 +2125,7 @@ class TestByTestResult(TestResult):
         """
         super().__init__()
         self._on_test = on_test
+        self._start_time = None
 
     def startTest(self, test):
         super().startTest(test)
@@ -2137,12 +2138,19 @@ class TestByTestResult(TestResult):
 
     def stopTest(self, test):
         self._stop_time = self._now()
+        # A test may be reported without startTest (Python 3.12.1 does that
+        # for skipped tests): it then starts when it stops, not when the
+        # previous test started.
+        start_time = self._start_time
+        if start_time is None:
+            start_time = self._stop_time
+        self._start_time = None
         tags = set(self.current_tags)
         super().stopTest(test)
         self._on_test(
             test=test,
             status=self._status,
-            start_time=self._start_time,
+            start_time=start_time,
             stop_time=self._stop_time,
             tags=tags,
             details=self._details,
